@@ -165,6 +165,9 @@ def imputer_memo(ctx, rule='A2k'):
 
 
 def check(ctx):
+    # repair / counting loops of the encoders: the arrays they update are the arrays they test
+    guards.check_dead_inplace_updates(ctx, [f for f in ctx.prog.all_functions() if f.module.name.startswith('adsg_core.optimization.assign_enc')])
+    ctx.floor('A28', 5, 'in-place element updates of local arrays in the encoders')
     regs = abstract.registered_classes(ctx, 'adsg_core.optimization.assign_enc.encoder_registry')
     if len(regs) < 20:
         raise AnalysisError(f'only {len(regs)} registered classes found')
